@@ -158,10 +158,22 @@ def make_rank_body(n, d, constrained):
         pts = [[sx.sym_real(f"p{i}_{j}") for j in range(d)] for i in range(n)]
         lv = arr(pts)
         if not constrained:
-            ranks = [int(x) for x in mo._fast_non_domination_rank(lv)]                 # REAL code
+            nb = sx.choose([None] + list(range(1, n + 1)), "n_below")
+            ranks = [int(x) for x in mo._fast_non_domination_rank(lv, n_below=nb)]     # REAL code
             want, _ = peel(range(n), pts)
             sx.reach("ranked")
-            assert ranks == [want[i] for i in range(n)], f"ranks {ranks} != peeling {[want[i] for i in range(n)]}"
+            if nb is None:
+                assert ranks == [want[i] for i in range(n)], f"ranks {ranks} != peeling {[want[i] for i in range(n)]}"
+                return True
+            # documented contract of n_below: ranks are exact up to the rank of the n_below-th best solution, every solution that is
+            # worse gets a rank greater than that
+            rstar = sorted(want[i] for i in range(n))[nb - 1]
+            for i in range(n):
+                if want[i] <= rstar:
+                    assert ranks[i] == want[i], f"n_below={nb}: rank of point {i} is {ranks[i]}, peeling gives {want[i]} (within the top-{nb} ranks); all: {ranks} vs {[want[j] for j in range(n)]}"
+                else:
+                    assert ranks[i] > rstar, f"n_below={nb}: point {i} (true rank {want[i]}) got rank {ranks[i]}, not worse than the top-{nb} rank {rstar}"
+            sx.reach("ranked-n_below")
             return True
         pk = [sx.choose(["real", "nan"], f"pen{i}.kind") for i in range(n)]
         pen = [sx.sym_real(f"pen{i}") if k == "real" else float("nan") for i, k in enumerate(pk)]
@@ -187,6 +199,9 @@ def make_rank_body(n, d, constrained):
     return body
 
 
+IDS = [7, 3, 11, 5, 2, 13]
+
+
 def make_hssp_members_body(n, d):
     def body():
         pts = [[sx.sym_real(f"p{i}_{j}") for j in range(d)] for i in range(n)]
@@ -195,9 +210,10 @@ def make_hssp_members_body(n, d):
             for j in range(d):
                 sx.assume(pts[i][j] < ref[j])
         k = sx.choose(list(range(1, n + 1)), "subset_size")
-        sel = [int(x) for x in hssp._solve_hssp(arr(pts), np.arange(n), k, vec(ref))]   # REAL code
+        ids = IDS[:n]                      # the index set is arbitrary (trial indices of one front), not 0..n-1
+        sel = [int(x) for x in hssp._solve_hssp(arr(pts), np.array(ids), k, vec(ref))]   # REAL code
         sx.reach("selected")
-        assert len(sel) == k and len(set(sel)) == k and all(0 <= i < n for i in sel), f"not {k} distinct members: {sel}"
+        assert len(sel) == k and len(set(sel)) == k and all(i in ids for i in sel), f"not {k} distinct members of {ids}: {sel}"
         return True
     return body
 
@@ -216,8 +232,10 @@ def make_hssp_ratio_body(n, d, L):
             pts = [pts[i] for i in perm]
         ref = [float(L)] * d
         k = sx.choose(list(range(1, n)), "subset_size")
-        sel = [int(x) for x in hssp._solve_hssp(np.array(pts), np.arange(n), k, np.array(ref))]    # REAL code, real NumPy
-        assert len(sel) == k and len(set(sel)) == k, f"not {k} distinct members: {sel}"
+        ids = IDS[:n]
+        sel = [int(x) for x in hssp._solve_hssp(np.array(pts), np.array(ids), k, np.array(ref))]    # REAL code, real NumPy
+        assert len(sel) == k and len(set(sel)) == k and all(i in ids for i in sel), f"not {k} distinct members of {ids}: {sel}"
+        sel = [ids.index(i) for i in sel]
         got = oracle_hv([pts[i] for i in sel], ref)
         best = max(oracle_hv([pts[i] for i in T], ref) for T in itertools.combinations(range(n), k))
         sx.reach("ratio-checked")
